@@ -14,6 +14,15 @@ Observation points (call-through wrappers, nothing of leaspy is replaced):
   * ΔA and ΔR are recomputed from scratch on a *fresh* `State` (same DAG, inputs copied through the
     public `__setitem__`), as the change of `nll_attach` and of the sum of *all* `nll_regul_*` terms,
     so a sampler that drops or mis-weights a term disagrees.
+
+Blocks (which coordinates a sweep visits, draw shapes, std indexing, masks): `Model/Blocks.lean` through the
+driver requests `blocks` / `indblocks`.  The table of blocks used to analyse the fitted-model sweeps is the
+Lean model's answer (`LeanBlocks`), and the real sampler classes are also run on toy variables of arbitrary
+shape — (), (d,), (r, c) incl. r = 1, c = 1, extents 0, 3-D, with and without a mask — built with the real
+`PopulationLatentVariable` / `IndividualLatentVariable` / `VariablesDAG` / `State` (`blocks_case`, `indblocks_case`).
+The predicate evaluated on the implementation alone: the sets of coordinates changed by the successive
+proposals of one sweep are pairwise disjoint and cover exactly the (unmasked) coordinates of the variable,
+one uniform per iterator element, the shuffled iterator is a permutation of the unshuffled one.
 """
 from __future__ import annotations
 
@@ -29,16 +38,25 @@ LEAN = dict(
     props="LeaspyVerif.Props.C03",
     driver="drivers/C03.lean",
     harness="c03_sampler.py",
-    extra_modules=["LeaspyVerif.Model.Sampler"],
+    extra_modules=["LeaspyVerif.Model.Sampler", "LeaspyVerif.Model.Blocks", "LeaspyVerif.Lemmas.Blocks"],
     theorems=["proposal_length", "proposal_support", "proposal_on_block", "proposal_neg",
               "draws_consumed", "draws_sufficient", "pop_first_decision", "draws_consumed_ind",
               "decision_local", "decision_formula", "accept_real", "accept_iff_min",
-              "alpha_is_target_ratio", "detailed_balance", "tempering_monotone", "D_at_one"],
+              "alpha_is_target_ratio", "detailed_balance", "tempering_monotone", "D_at_one",
+              "construct_spec", "blocks_cover", "blocks_cover_masked", "blocks_partition", "blocks_no_stray",
+              "blocks_nonempty", "blocks_draw_shape", "gibbs_blocks_singletons", "mh_one_block",
+              "fastGibbs_blocks_rows", "sweep_counts_gibbs", "sweep_counts_fastGibbs", "sweep_counts_mh",
+              "sweep_counts_masked", "shuffle_preserves_blocks", "sweepDraws_perm", "sweep_any_order_once",
+              "shuffled_sweep_once", "blockChange_unmasked", "blockChange_support", "proposal_support_blocks",
+              "draws_consumed_sweep", "sampler_tables_agree", "ind_blocks_rows", "ind_draws_by_row"],
     trusted_extra=[
         "theorems are over the reals (Real.exp); the executable instance is Float32 for the values "
         "(Float32 product, then double addition, for the float64 variables of the joint model) and IEEE double for the nll terms",
         "the uniform / normal laws of torch.rand / torch.randn are not modelled: 'accepted with probability min(1,alpha)' "
         "and ergodicity are not claimed, only the decision rule, its arguments and the draw accounting",
+        "a mask on a population sampler is refused by the constructor (NotImplementedError, modelled by `construct`); the mask "
+        "branches of `_get_iterator_indices` / `_proposed_change_idx` are exercised by setting the `mask` attribute of a "
+        "constructed instance, which no public path does",
         "mixture models: the individual sampler's responsibility-weighted regularity of the sampled variable (weights of the same state) is checked as coded; it is not the mixture-prior density and no theorem covers it",
     ],
     assumptions=[
@@ -82,7 +100,13 @@ def _imports():
     from leaspy.io.data import Data, Dataset
     from leaspy.algo import AlgorithmSettings, algorithm_factory
     from leaspy.variables.state import State
-    from leaspy.variables.specs import IndividualLatentVariable, PopulationLatentVariable
+    from leaspy.variables.specs import (IndividualLatentVariable, PopulationLatentVariable, NamedVariables,
+                                        Hyperparameter, LinkedVariable)
+    from leaspy.variables.dag import VariablesDAG
+    from leaspy.variables.distributions import Normal
+    from leaspy.variables.state import StateForkType
+    from leaspy.samplers.gibbs import (PopulationGibbsSampler, PopulationFastGibbsSampler,
+                                       PopulationMetropolisHastingsSampler, IndividualGibbsSampler)
     from leaspy.exceptions import LeaspyInputError, LeaspyAlgoInputError, LeaspyModelInputError, LeaspyDataInputError
 
     class Env:
@@ -90,6 +114,8 @@ def _imports():
     e = Env()
     for k, v in list(locals().items()):
         setattr(e, k, v)
+    e.SAMPLERS = {"Gibbs": PopulationGibbsSampler, "FastGibbs": PopulationFastGibbsSampler,
+                  "Metropolis-Hastings": PopulationMetropolisHastingsSampler}
     return e
 
 
@@ -321,16 +347,77 @@ def bits_equal(env, a, b):
     return bool(torch.equal(a, b)) and bool(torch.equal(torch.signbit(a), torch.signbit(b)))
 
 
-def expected_blocks(kind, shape):
-    """Index blocks (flat, row-major) of each sampler kind."""
-    n = 1
-    for s in shape:
-        n *= s
-    if kind == "Metropolis-Hastings":
-        return [tuple(range(n))]
-    if kind == "FastGibbs" and len(shape) == 2:
-        return [tuple(r * shape[1] + c for c in range(shape[1])) for r in range(shape[0])]
-    return [(i,) for i in range(n)]
+KIND_CODE = {"Gibbs": "G", "FastGibbs": "F", "Metropolis-Hastings": "M"}
+
+
+def blocks_line(kind, shape, mask=None, order=None):
+    """Request line for the driver: blocks of one sweep of `kind` on a variable of shape `shape`."""
+    ln = f"blocks kind={KIND_CODE[kind]} shape={fmt_list(list(shape))}"
+    if mask is not None:
+        ln += f" mask={fmt_list([int(bool(b)) for b in mask])}"
+    if order is not None:
+        ln += f" order={fmt_list(list(order))}"
+    return ln
+
+
+def _ints(sx):
+    return [int(x) for x in split_ne(sx)]
+
+
+def parse_blocks(resp):
+    """Parsed `blocks` / `indblocks` response (None when the driver refuses)."""
+    bad_order = resp.startswith("err:order ")
+    if bad_order:
+        resp = resp[len("err:order "):]
+    if resp.startswith("err") or resp == "bad-request":
+        return None
+    parts = dict(p.split("=", 1) for p in resp.split(" "))
+    nb = int(parts["nb"])
+
+    def l2(key, conv=_ints):
+        return [conv(r) for r in parts[key].split(";")] if nb else []
+    return {"bad_order": bad_order,
+            "ctor": parts["ctor"], "stdshape": tuple(_ints(parts["stdshape"])), "n": int(parts["n"]), "nb": nb,
+            "idx": [tuple(x) for x in l2("idx")], "zshape": [tuple(x) for x in l2("zshape")],
+            "coords": [tuple(x) for x in l2("coords")], "std": _ints(parts["std"]) if nb else [],
+            "keep": l2("keep", lambda r: None if r == "n" else [x == "1" for x in split_ne(r)]),
+            "moved": [tuple(x) for x in l2("moved")], "nz": int(parts["nz"]), "nu": int(parts["nu"])}
+
+
+class LeanBlocks:
+    """Blocks of (kind, shape) as answered by the Lean model; one driver call for a family of shapes, a further
+    call only for a shape outside it."""
+
+    def __init__(self, chk):
+        self.chk = chk
+        self.table = {}
+
+    def prefetch_lines(self, keys):
+        self._pending = [k for k in keys if k not in self.table]
+        return [blocks_line(k, sh) for (k, sh) in self._pending]
+
+    def store(self, responses):
+        for key, resp in zip(self._pending, responses):
+            self.table[key] = parse_blocks(resp)
+        self._pending = []
+
+    def get(self, kind, shape):
+        key = (kind, tuple(shape))
+        if key not in self.table:
+            self.chk.tag("lean_blocks_table", "extra-driver-call")
+            self.table[key] = parse_blocks(self.chk.model([blocks_line(kind, shape)])[0])
+        return self.table[key]
+
+
+def default_table_keys():
+    shapes = [(d,) for d in range(1, 13)] + [(r, c) for r in range(1, 13) for c in range(1, 7)]
+    return [(k, sh) for k in KINDS for sh in shapes]
+
+
+def expected_blocks(kind, shape, lean=None):
+    """Index blocks (flat, row-major) of each sampler kind: the Lean model's answer (`Model/Blocks.lean`)."""
+    b = lean.get(kind, shape)
+    return None if b is None else [tuple(c) for c in b["coords"]]
 
 
 def alpha64(dA, dR, tinv):
@@ -440,14 +527,55 @@ def fl(t):
     return [float(x) for x in t.detach().double().reshape(-1)]
 
 
+def get_lean(chk):
+    if getattr(chk, "_lean_blocks", None) is None:
+        chk._lean_blocks = LeanBlocks(chk)
+    return chk._lean_blocks
+
+
+def partition_predicate(steps, movable, chk=None, degenerate=False):
+    """steps: [(current flat value, proposed flat value)] of one sweep, in visiting order; movable: the set of flat
+    coordinates the sweep is supposed to move (all of them without a mask).  The changed sets must be pairwise
+    disjoint, inside `movable`, and cover it.  `degenerate`: the caller saw a proposal too small to be visible
+    (fewer coordinates changed than normals drawn, or a draw below 1e-4): coverage is then counted, not judged."""
+    fails, seen = [], set()
+    for k, (cur, prop) in enumerate(steps):
+        ch = {i for i, (a, b) in enumerate(zip(cur, prop)) if a != b}
+        if ch - movable:
+            fails.append(f"step {k}: the proposal moves flat coordinates {sorted(ch - movable)[:6]} which must not move (masked / not of the variable)")
+        if seen & ch:
+            fails.append(f"step {k}: flat coordinates {sorted(seen & ch)[:6]} are perturbed a second time in the same sweep "
+                         "(the blocks must partition the coordinates of the variable)")
+            break
+        seen |= ch
+    if not fails and seen != movable:
+        if degenerate:
+            if chk is not None:
+                chk.tag("degenerate", "partition-coverage-not-judged")
+        else:
+            fails.append(f"flat coordinates {sorted(movable - seen)[:6]} are never perturbed during the sweep "
+                         "(every coordinate must belong to exactly one block)")
+    return fails
+
+
 def analyse_pop(chk, case, su, var, tinv, ob, lines, expect):
     """Property predicate on a population sampler call + request lines for the model."""
     env = su.env
     torch = env.torch
     fails = []
     shape = ob["shape"]
-    blocks_expected = expected_blocks(su.kind, shape)
+    lb = get_lean(chk).get(su.kind, shape)
+    if lb is None or lb["ctor"] != "ok":
+        chk.disagree(case, f"a {su.kind} sampler exists for shape {shape}", None if lb is None else lb["ctor"],
+                     "the Lean model refuses a variable shape that the real algorithm samples")
+        return fails, 0
+    blocks_expected = [tuple(c) for c in lb["coords"]]       # the Lean model's blocks (Model/Blocks.lean)
+    std_of = dict(zip(blocks_expected, lb["std"]))
+    zshape_of = dict(zip(blocks_expected, lb["zshape"]))
     std = ob["std"]
+    if tuple(std.shape) != lb["stdshape"]:
+        chk.disagree(case, tuple(std.shape), lb["stdshape"], "shape of the sampler's std")
+        return fails, 0
     ev = ob["events"]
     # group events into steps: normals* then one uniform
     steps, cur_n = [], []
@@ -459,6 +587,11 @@ def analyse_pop(chk, case, su, var, tinv, ob, lines, expect):
             cur_n = []
     if cur_n:
         fails.append(f"{len(cur_n)} normal draw call(s) not followed by a decision draw")
+    # the property's own predicate, without any table: the proposals of one sweep move pairwise disjoint sets of
+    # coordinates which together are all the coordinates of the variable
+    pairs = [(fl(ue_["cur"]), fl(ue_["prop"])) for _, ue_ in steps]
+    degen = any(sum(a != b for a, b in zip(c_, p_)) < sum(e["z"].numel() for e in ns_) for (ns_, _), (c_, p_) in zip(steps, pairs))
+    fails += partition_predicate(pairs, set(range(ob["start"].numel())), chk, degenerate=degen)
     n_dec = len(blocks_expected)
     if len(steps) != n_dec:
         fails.append(f"{len(steps)} uniform draw call(s) for {n_dec} block decisions of {su.kind} on shape {shape} "
@@ -499,13 +632,10 @@ def analyse_pop(chk, case, su, var, tinv, ob, lines, expect):
         if z.numel() != len(block):
             fails.append(f"step {k}: {z.numel()} normal draws for a block of {len(block)} entries")
             return fails, nontrivial
-        # std of the block
-        if su.kind == "Metropolis-Hastings":
-            sb = std.reshape(-1)[0]
-        elif su.kind == "FastGibbs" and len(shape) == 2:
-            sb = std.reshape(-1)[block[0] // shape[1]]
-        else:
-            sb = std.reshape(-1)[block[0]]
+        if len(ns) == 1 and tuple(ns[0]["z"].shape) != zshape_of[block]:
+            chk.disagree(case, tuple(ns[0]["z"].shape), zshape_of[block], f"step {k}: shape of the normal draw of block {block}")
+        # std entry of the block: the one the Lean model names
+        sb = std.reshape(-1)[std_of[block]]
         change = torch.zeros(cur.numel(), dtype=z.dtype)
         change[list(block)] = sb * z
         want = (cur.reshape(-1) + change).reshape(cur.shape)
@@ -545,8 +675,8 @@ def analyse_pop(chk, case, su, var, tinv, ob, lines, expect):
                 fails.append(f"step {k} block {block} tinv={tinv}: u={u!r} alpha=exp(-(dR*tinv+dA))={a!r} (dA={dA!r}, dR={dR!r}, draw kind {inj}) "
                              f"=> {'accept' if exp_dec else 'reject'} expected, implementation {'accepted' if acc else 'rejected'}")
         if ob["hist"] is not None and acc is not None and ob["hist"].numel() == len(blocks_expected):
-            # position of the block inside acceptation history = index of the block in canonical order
-            hi = blocks_expected.index(block)
+            # position of the block inside the acceptation history = position of its std entry
+            hi = std_of[block]
             if bool(ob["hist"].reshape(-1)[hi] != 0) != acc:
                 fails.append(f"step {k}: acceptation history says {bool(ob['hist'].reshape(-1)[hi] != 0)} but the value says {acc}")
         # model segment bookkeeping
@@ -572,7 +702,7 @@ def analyse_pop(chk, case, su, var, tinv, ob, lines, expect):
         seg["last_open"] = False
         flush_pop_segment(case, ob, tinv, seg, lines, expect)
     if sorted(visited) != sorted(blocks_expected):
-        fails.append(f"blocks visited {sorted(visited)} are not the {su.kind} blocks {blocks_expected}")
+        fails.append(f"blocks visited {sorted(visited)} are not the {su.kind} blocks {blocks_expected} of the Lean model")
     return fails, nontrivial
 
 
@@ -719,6 +849,382 @@ def compare_model(chk, lines, expect):
 
 
 # ----------------------------------------------------------------------------------------------
+# blocks of a sweep on toy variables of arbitrary shape (real sampler classes, real State)
+# ----------------------------------------------------------------------------------------------
+def numel_of(shape):
+    n = 1
+    for d in shape:
+        n *= d
+    return n
+
+
+def ctor_class(env, e):
+    if isinstance(e, IndexError):
+        return "err:index"
+    if isinstance(e, NotImplementedError):
+        return "err:notimpl"
+    if isinstance(e, env.LeaspyModelInputError):
+        return "err:model"
+    return f"err:other:{type(e).__name__}"
+
+
+def toy_state(env, x0, w0):
+    """A real State on a real DAG: population latent `x` (any shape), individual latent `w` (n, *shape), normal
+    priors, quadratic attachment per individual."""
+    torch = env.torch
+    n = w0.shape[0]
+    nv = env.NamedVariables({
+        "x_mean": env.Hyperparameter(torch.zeros(tuple(x0.shape))),
+        "x_std": env.Hyperparameter(torch.tensor(1.0)),
+        "x": env.PopulationLatentVariable(env.Normal("x_mean", "x_std")),
+        "w_mean": env.Hyperparameter(torch.zeros(tuple(w0.shape[1:]))),
+        "w_std": env.Hyperparameter(torch.ones(tuple(w0.shape[1:]))),
+        "w": env.IndividualLatentVariable(env.Normal("w_mean", "w_std")),
+        "nll_attach_ind": env.LinkedVariable(
+            lambda *, x, w: ((w - 0.3) ** 2).reshape(w.shape[0], -1).sum(dim=1) + ((x - 0.3) ** 2).sum() / w.shape[0]),
+        "nll_attach": env.LinkedVariable(lambda *, nll_attach_ind: nll_attach_ind.sum()),
+    })
+    st = env.State(env.VariablesDAG.from_dict(nv), auto_fork_type=env.StateForkType.REF)
+    st["x"] = x0.clone()
+    st["w"] = w0.clone()
+    assert n == st["w"].shape[0]
+    return st
+
+
+class DrawTap:
+    """Call-through wrappers around torch.randn / torch.normal / torch.rand recording every result together with the
+    value of one state variable at that moment."""
+
+    def __init__(self, env, read):
+        self.env, self.read, self.events = env, read, []
+
+    def __enter__(self):
+        torch = self.env.torch
+        self._orig = (torch.randn, torch.rand, torch.normal)
+        o_randn, o_rand, o_normal = self._orig
+
+        def randn(*a, **k):
+            out = o_randn(*a, **k)
+            self.events.append(("n", out.detach().clone(), self.read()))
+            return out
+
+        def normal(*a, **k):
+            out = o_normal(*a, **k)
+            self.events.append(("n", out.detach().clone(), self.read()))
+            return out
+
+        def rand(*a, **k):
+            out = o_rand(*a, **k)
+            self.events.append(("u", out.detach().clone(), self.read()))
+            return out
+
+        torch.randn, torch.rand, torch.normal = randn, rand, normal
+        return self
+
+    def __exit__(self, *exc):
+        torch = self.env.torch
+        torch.randn, torch.rand, torch.normal = self._orig
+        return False
+
+
+def signed_values(torch, shape, g):
+    """values with |v| in [0.5, 2): any visible change is a change of bits, no zero whose sign could flip"""
+    v = 0.5 + 1.5 * torch.rand(shape, generator=g)
+    return torch.where(torch.rand(shape, generator=g) < 0.5, -v, v)
+
+
+def blocks_case(chk, env, spec, lines, expect):
+    """One real population sampler on a toy variable: constructor outcome, iterator, one observed `sample` call."""
+    torch = env.torch
+    kind, shape, mask, seed = spec["sampler_pop"], tuple(spec["shape"]), spec.get("mask"), spec["seed"]
+    shuffle = spec.get("shuffle", True)
+    case = dict(spec, kind="blocks")
+    n = numel_of(shape)
+    cls = env.SAMPLERS[kind]
+    mask_t = None if mask is None else torch.tensor(mask, dtype=torch.bool).reshape(shape)
+    key = ("blocks", kind, shape, None if mask is None else tuple(mask), seed, shuffle)
+    tags = {"sampler": f"blocks-{kind}", "shape_kind": f"{len(shape)}-d" + ("+mask" if mask is not None else "")}
+    smp, ctor = None, "ok"
+    try:
+        with core.quiet():
+            smp = cls("x", shape, scale=1.0, random_order_dimension=shuffle, **({} if mask is None else {"mask": mask_t}))
+    except Exception as e:  # noqa
+        ctor = ctor_class(env, e)
+    if smp is None and ctor == "err:notimpl" and mask is not None:
+        # the constructor refuses a mask; the mask branches of the methods are reached through the attribute
+        try:
+            smp = cls("x", shape, scale=1.0, random_order_dimension=shuffle)
+            smp.mask = mask_t
+        except Exception as e:  # noqa
+            smp = None
+    info = {"ctor": ctor, "obs": None}
+    if smp is None:
+        lines.append(blocks_line(kind, shape, mask))
+        expect.append(("blocks", case, info))
+        chk.case(key, nontrivial=False, tags=dict(tags, outcome=ctor))
+        return
+    fails = []
+    g = torch.Generator().manual_seed(seed)
+    std_shape = tuple(smp.std.shape)
+    smp.std = (0.05 + 0.45 * torch.rand(std_shape, generator=g)).float()
+    x0 = signed_values(torch, shape, g)
+    w0 = signed_values(torch, (2, 1), g)
+    visited = []
+    try:
+        canon = [tuple(int(v) for v in i) for i in smp._get_iterator_indices()]
+        state = toy_state(env, x0, w0)
+        orig = smp._get_shuffled_iterator_indices
+
+        def tapped():
+            out = orig()
+            visited.append([tuple(int(v) for v in i) for i in out])
+            return out
+        smp._get_shuffled_iterator_indices = tapped
+        random.seed(seed)
+        torch.manual_seed(seed)
+        with core.quiet(), DrawTap(env, lambda: state["x"].detach().clone()) as tap:
+            smp.sample(state, temperature_inv=1.0)
+        final = state["x"].detach().clone()
+        hist = smp.acceptation_history[-1].detach().clone()
+    except Exception as e:  # noqa
+        chk.impl_failure(case, f"sample() of a {kind} sampler on a toy variable of shape {shape} raised {err_class(env, e)}: {str(e)[:160]}")
+        chk.case(key, nontrivial=False, tags=dict(tags, outcome="raised"))
+        return
+    # steps = normal draws followed by one decision draw
+    steps, cur_n = [], []
+    for ev in tap.events:
+        if ev[0] == "n":
+            cur_n.append(ev)
+        else:
+            steps.append((cur_n, ev))
+            cur_n = []
+    if cur_n:
+        fails.append(f"{len(cur_n)} normal draw call(s) not followed by a decision draw")
+    if len(visited) != 1:
+        fails.append(f"the shuffled iterator was asked {len(visited)} times during one sweep")
+    order = None
+    if visited:
+        if sorted(visited[0]) != sorted(canon):
+            fails.append(f"the shuffled iterator {visited[0]} is not a permutation of the iterator {canon}")
+        elif not shuffle and visited[0] != canon:
+            fails.append(f"random_order_dimension=False but the iterator {canon} is visited as {visited[0]}")
+        else:
+            order = [canon.index(i) for i in visited[0]]
+        if len(steps) != len(visited[0]):
+            fails.append(f"{len(steps)} uniform draw(s) for {len(visited[0])} iterator elements (one decision draw per element)")
+    if any(u.numel() != 1 for _, (_, u, _) in steps):
+        fails.append("a decision of a population sampler drew more than one uniform")
+    movable = set(range(n)) if mask is None else {i for i in range(n) if mask[i]}
+    zs_all = [float(v) for ns, _ in steps for (_, z, _) in ns for v in z.reshape(-1)]
+    degenerate = any(abs(v) < 1e-4 for v in zs_all)
+    pairs = [(fl(ns[0][2]) if ns else fl(ue[2]), fl(ue[2])) for ns, ue in steps]
+    fails += partition_predicate(pairs, movable, chk, degenerate=degenerate)
+    for k, ((ns, _), (c_, p_)) in enumerate(zip(steps, pairs)):
+        nch, nzk = sum(a != b for a, b in zip(c_, p_)), sum(z.numel() for (_, z, _) in ns)
+        if nzk < nch:
+            fails.append(f"step {k}: {nch} coordinates are moved with {nzk} normal draw(s): the perturbations of distinct coordinates "
+                         "are not separate Gaussian draws")
+            break
+    bad = [i for i in range(n) if i not in movable and not bits_equal(env, final.reshape(-1)[i], x0.reshape(-1)[i])]
+    if bad:
+        fails.append(f"masked flat coordinates {bad[:6]} differ after the sweep")
+    for f in fails[:3]:
+        chk.impl_failure(case, f)
+    info["obs"] = {"canon": canon, "order": order, "std": smp.std.detach().clone(), "std_shape": std_shape, "n": n,
+                   "steps": [{"z": [z for (_, z, _) in ns], "cur": (ns[0][2] if ns else ue[2]), "prop": ue[2]} for ns, ue in steps],
+                   "visited": visited[0] if visited else None, "degenerate": degenerate,
+                   "hist_shape": tuple(hist.shape)}
+    lines.append(blocks_line(kind, shape, mask, order))
+    expect.append(("blocks", case, info))
+    chk.case(key, nontrivial=(len(steps) > 0 and n > 0), tags=dict(tags, outcome="ok" if not fails else "fail"),
+             sample=(dict(case, visited=[list(i) for i in (visited[0] if visited else [])][:6]) if len(chk.samples) < 6 and mask is not None and n > 2 else None))
+
+
+def indblocks_case(chk, env, spec, lines, expect):
+    """The real individual sampler on a toy individual variable of shape (n, *shape)."""
+    torch = env.torch
+    n, shape, seed = spec["n"], tuple(spec["shape"]), spec["seed"]
+    case = dict(spec, kind="indblocks")
+    d = numel_of(shape)
+    key = ("indblocks", n, shape, seed)
+    tags = {"sampler": "blocks-ind", "shape_kind": f"ind-{len(shape)}-d"}
+    g = torch.Generator().manual_seed(seed)
+    try:
+        with core.quiet():
+            smp = env.IndividualGibbsSampler("w", shape, n_patients=n, scale=1.0)
+        std_shape = tuple(smp.std.shape)
+        smp.std = (0.05 + 0.45 * torch.rand(std_shape, generator=g)).float()
+        w0 = signed_values(torch, (n, *shape), g)
+        state = toy_state(env, signed_values(torch, (2,), g), w0)
+        random.seed(seed)
+        torch.manual_seed(seed)
+        with core.quiet(), DrawTap(env, lambda: state["w"].detach().clone()) as tap:
+            smp.sample(state, temperature_inv=1.0)
+    except Exception as e:  # noqa
+        chk.impl_failure(case, f"individual sampler on a toy variable of shape ({n}, *{shape}) raised {err_class(env, e)}: {str(e)[:160]}")
+        chk.case(key, nontrivial=False, tags=dict(tags, outcome="raised"))
+        return
+    fails = []
+    ns = [e for e in tap.events if e[0] == "n"]
+    us = [e for e in tap.events if e[0] == "u"]
+    nz, nu = sum(e[1].numel() for e in ns), sum(e[1].numel() for e in us)
+    if nu != n:
+        fails.append(f"{nu} uniform draws for {n} individual decisions (a uniform must be consumed for every decision)")
+    if nz != n * d:
+        fails.append(f"{nz} normal draws for {n} individuals x {d} coordinates")
+    if ns and us and not fails:
+        cur, prop = ns[0][2], us[0][2]
+        zs_all = [float(v) for e in ns for v in e[1].reshape(-1)]
+        fails += partition_predicate([(fl(cur), fl(prop))], set(range(n * d)), chk, degenerate=any(abs(v) < 1e-4 for v in zs_all))
+    for f in fails[:3]:
+        chk.impl_failure(case, f)
+    obs = None
+    if ns and us:
+        obs = {"std": smp.std.detach().clone(), "std_shape": std_shape, "n": n * d, "z": [e[1] for e in ns],
+               "cur": ns[0][2], "prop": us[0][2], "nz": nz, "nu": nu}
+    lines.append(f"indblocks n={n} shape={fmt_list(list(shape))}")
+    expect.append(("indblocks", case, {"ctor": "ok", "obs": obs}))
+    chk.case(key, nontrivial=(n * d > 0), tags=dict(tags, outcome="ok" if not fails else "fail"))
+
+
+def apply_block(env, cur, std, z_flat, coords, std_idx, keep):
+    """current + change of one block as the Lean model describes it, in the implementation's float32 operations"""
+    torch = env.torch
+    want = cur.reshape(-1).clone()
+    chg = std.reshape(-1)[std_idx] * z_flat
+    if keep is not None:
+        chg = chg * torch.tensor(keep, dtype=torch.bool).float()
+    if len(coords):
+        want[list(coords)] = want[list(coords)] + chg
+    return want.reshape(cur.shape)
+
+
+def compare_blocks(chk, env, responses, expect):
+    torch = env.torch
+    for resp, (kind, case, info) in zip(responses, expect):
+        lb = None
+        try:
+            lb = parse_blocks(resp)
+        except Exception as e:  # noqa
+            chk.disagree(case, "?", resp[:200], f"unparsable model response ({type(e).__name__})")
+            continue
+        if lb is None:
+            chk.disagree(case, "ran", resp, f"model refuses the {kind} request")
+            continue
+        if lb["ctor"] != info["ctor"]:
+            chk.disagree(case, info["ctor"], lb["ctor"], "outcome of the sampler's constructor")
+            continue
+        ob = info["obs"]
+        if ob is None:
+            continue
+        if kind == "blocks":
+            # the blocks a sweep moves, whatever the order: the Lean model's blocks are the reference of the property
+            # ("one coordinate, one row, the whole population variable": gibbs_blocks_singletons, fastGibbs_blocks_rows,
+            # mh_one_block), so a different family of blocks is a failure of the implementation on this input
+            moved_impl = sorted(tuple(i for i, (a, b) in enumerate(zip(fl(st["cur"]), fl(st["prop"]))) if a != b) for st in ob["steps"])
+            if not ob["degenerate"] and moved_impl != sorted(lb["moved"]):
+                chk.impl_failure(case, f"one {case['sampler_pop']} sweep on a variable of shape {tuple(case['shape'])}"
+                                       f"{' with mask ' + str(case['mask']) if case.get('mask') is not None else ''} perturbs the blocks "
+                                       f"{moved_impl}; the blocks of that sampler are {sorted(lb['moved'])} (Model/Blocks.lean)")
+                continue
+        if tuple(ob["std_shape"]) != lb["stdshape"]:
+            chk.disagree(case, ob["std_shape"], lb["stdshape"], "shape of std (shape_adapted_std)")
+            continue
+        if ob["n"] != lb["n"]:
+            chk.disagree(case, ob["n"], lb["n"], "number of entries of the variable")
+            continue
+        if kind == "indblocks":
+            z = torch.cat([t.reshape(-1) for t in ob["z"]])
+            if (ob["nz"], ob["nu"]) != (lb["nz"], lb["nb"]):
+                chk.disagree(case, (ob["nz"], ob["nu"]), (lb["nz"], lb["nb"]), "draws of one individual step (normals, uniforms)")
+                continue
+            if len(ob["z"]) != 1 or tuple(ob["z"][0].shape) != tuple(ob["cur"].shape):
+                chk.disagree(case, [tuple(t.shape) for t in ob["z"]], tuple(ob["cur"].shape), "shape of the single normal draw (n_patients, *shape)")
+                continue
+            want = ob["cur"]
+            for coords, si in zip(lb["coords"], lb["std"]):
+                want = apply_block(env, want, ob["std"], z[list(coords)] if len(coords) else z[:0], coords, si, None)
+            if not bits_equal(env, want, ob["prop"]):
+                bad = [i for i, (a, b) in enumerate(zip(fl(want), fl(ob["prop"]))) if a != b]
+                chk.disagree(case, fl(ob["prop"])[:8], fl(want)[:8], f"proposed rows: own std entry on own coordinates (differs at flat {bad[:4]})")
+            continue
+        steps = ob["steps"]
+        if ob["order"] is None or lb["bad_order"]:
+            # the implementation's iterator is not the model's (or its visiting order is not a permutation of it)
+            chk.disagree(case, ob["canon"], sorted(lb["idx"]), "iterator indices (unshuffled)")
+            continue
+        if ob["visited"] != lb["idx"]:
+            chk.disagree(case, ob["visited"], lb["idx"], "iterator indices (in visiting order)")
+            continue
+        if len(steps) != lb["nb"] or sum(t.numel() for st in steps for t in st["z"]) != lb["nz"]:
+            chk.disagree(case, (sum(t.numel() for st in steps for t in st["z"]), len(steps)), (lb["nz"], lb["nu"]),
+                         "draws of one sweep (normals, uniforms)")
+            continue
+        if ob["hist_shape"] != lb["stdshape"]:
+            chk.disagree(case, ob["hist_shape"], lb["stdshape"], "shape of one row of the acceptation history")
+        for k, st in enumerate(steps):
+            zsh = [tuple(t.shape) for t in st["z"]]
+            if zsh != [lb["zshape"][k]]:
+                chk.disagree(case, zsh, [lb["zshape"][k]], f"step {k} (idx {lb['idx'][k]}): shape of the normal draw")
+                break
+            z = st["z"][0].reshape(-1)
+            want = apply_block(env, st["cur"], ob["std"], z, lb["coords"][k], lb["std"][k], lb["keep"][k])
+            if not bits_equal(env, want, st["prop"]):
+                bad = [i for i, (a, b) in enumerate(zip(fl(want), fl(st["prop"]))) if a != b]
+                chk.disagree(case, fl(st["prop"])[:8], fl(want)[:8],
+                             f"step {k} (idx {lb['idx'][k]}): proposed value = current + std[{lb['std'][k]}]*z on coordinates {list(lb['coords'][k])}"
+                             f"{' times the mask' if lb['keep'][k] is not None else ''} (differs at flat {bad[:4]})")
+                break
+            changed = tuple(i for i, (a, b) in enumerate(zip(fl(st["cur"]), fl(st["prop"]))) if a != b)
+            if not ob["degenerate"] and changed != lb["moved"][k]:
+                chk.disagree(case, changed, lb["moved"][k], f"step {k}: coordinates moved by the proposal")
+                break
+
+
+def synthetic_specs(rng, tier):
+    specs = []
+    fixed = [(), (1,), (3,), (1, 1), (1, 4), (4, 1), (2, 3), (0,), (2, 0), (0, 2), (2, 2, 2)]
+    for kind in KINDS:
+        for sh in fixed:
+            specs.append({"kind": "blocks", "sampler_pop": kind, "shape": list(sh), "mask": None,
+                          "seed": rng.randrange(1, 10 ** 6), "shuffle": True})
+    for _ in range(45 if tier == "quick" else 300):
+        kind = rng.choice(KINDS)
+        sh = (rng.randint(1, 7),) if rng.random() < 0.35 else (rng.randint(1, 5), rng.randint(1, 5))
+        n = numel_of(sh)
+        mask = None
+        if rng.random() < 0.5:
+            style = rng.choice(["rand", "rand", "rand", "ones", "zeros", "row"])
+            if style == "ones":
+                mask = [1] * n
+            elif style == "zeros":
+                mask = [0] * n
+            else:
+                mask = [int(rng.random() < 0.6) for _ in range(n)]
+                if style == "row" and len(sh) == 2:
+                    r = rng.randrange(sh[0])
+                    for c in range(sh[1]):
+                        mask[r * sh[1] + c] = 0
+        specs.append({"kind": "blocks", "sampler_pop": kind, "shape": list(sh), "mask": mask,
+                      "seed": rng.randrange(1, 10 ** 6), "shuffle": rng.random() < 0.85})
+    ind = [(3, ()), (2, (1,)), (4, (3,)), (3, (2, 2)), (1, (2,)), (2, (1, 1))]
+    for _ in range(6 if tier == "quick" else 40):
+        nd = rng.choice([0, 1, 1, 2])
+        ind.append((rng.randint(1, 6), tuple(rng.randint(1, 4) for _ in range(nd))))
+    for (n, sh) in ind:
+        specs.append({"kind": "indblocks", "n": n, "shape": list(sh), "seed": rng.randrange(1, 10 ** 6)})
+    return specs
+
+
+def run_synthetic(chk, env, specs, lines, expect):
+    for spec in specs:
+        if spec["kind"] == "blocks":
+            blocks_case(chk, env, spec, lines, expect)
+        else:
+            indblocks_case(chk, env, spec, lines, expect)
+
+
+# ----------------------------------------------------------------------------------------------
 def run_setup(chk, env, model_name, kind, seed, tier, lines, expect):
     """All observed calls for one (model, population sampler kind); deterministic given (seed, tier)."""
     rng = random.Random(f"C03:{model_name}:{kind}:{seed}")
@@ -803,14 +1309,31 @@ def iteration_case(chk, env, model_name, kind, seed, tinv):
 
 def run(chk: core.Check):
     env = _imports()
-    chk.rule = ("one case = one real sampler.sample(state, temperature_inv) call under observation, on a fitted model after warm-up "
+    chk.rule = ("block cases: one real sampler object on a toy variable (shapes (), (d,), (r,c) incl. extents 0 and 1, 3-D; "
+                "random 0/1 masks incl. all-0, all-1 and a fully masked row; shuffled or not), constructor outcome + one observed "
+                "sweep, non-trivial when a sweep with at least one entry was observed; distinct by (kind, shape, mask, seed). "
+                "Step cases: one case = one real sampler.sample(state, temperature_inv) call under observation, on a fitted model after warm-up "
                 "sweeps, with randomised per-entry std; all population sampler kinds x every latent variable x tinv in {1, .5, .1} "
                 "(+ a random 1/T in the thorough tier); ~55% of the uniform draws handed to the sampler are chosen adversarially "
                 "(exact tie u=alpha, float neighbours of alpha, alpha(1+-1e-3), alpha(1+-1e-2), 0, 1-ulp). A case is non-trivial when "
                 "at least one non-ambiguous decision has 0 < alpha < 1; distinct by (model, sampler kind, variable, tinv, seed, call index).")
     models = list(MODELS)
     lines, expect = [], []
-    for c in core.load_corpus(PROP):
+    # 1. blocks of a sweep: real sampler classes on toy variables of arbitrary shape vs Model/Blocks.lean, and the
+    #    table of blocks (Lean's answer) used below to analyse the sweeps on the fitted models
+    corpus = core.load_corpus(PROP)
+    blines, bexpect = [], []
+    run_synthetic(chk, env, [c for c in corpus if c.get("kind") in ("blocks", "indblocks")] + synthetic_specs(chk.rng, chk.tier),
+                  blines, bexpect)
+    lean = get_lean(chk)
+    tlines = lean.prefetch_lines(default_table_keys())
+    out = chk.model(tlines + blines)
+    lean.store(out[:len(tlines)])
+    compare_blocks(chk, env, out[len(tlines):], bexpect)
+    # 2. sampling steps on fitted models
+    for c in corpus:
+        if c.get("kind") in ("blocks", "indblocks"):
+            continue
         run_setup(chk, env, c["model"], c["sampler_pop"], c["setup_seed"], c.get("tier", "quick"), lines, expect)
     if chk.tier == "quick":
         # every model with Gibbs (incl. individual variables); the two other kinds on a rotating subset
@@ -839,6 +1362,11 @@ def replay(chk: core.Check, payload):
     lines, expect = [], []
     if case.get("kind") == "iteration":
         iteration_case(chk, env, case["model"], case["sampler_pop"], case["setup_seed"], case["tinv"])
+        return
+    if case.get("kind") in ("blocks", "indblocks"):
+        spec = {k: v for k, v in case.items() if k != "visited"}
+        run_synthetic(chk, env, [spec], lines, expect)
+        compare_blocks(chk, env, chk.model(lines), expect)
         return
     run_setup(chk, env, case["model"], case["sampler_pop"], case["setup_seed"], case.get("tier", "quick"), lines, expect)
     compare_model(chk, lines, expect)
